@@ -444,6 +444,17 @@ func enumeratePatches(n *schema.Named, depth int) []*dyn.PatchM {
 
 var patchRecords = []string{"vt.Leaf", "vt.Inner", "vt.WithDefaults", "vt.IncA", "vt.Tree", "vt.KeyParams", "vt.sub.Other"}
 
+// nullify puts a member with a null value in front of the members of a patch object and of the objects nested in it.
+func nullify(tr *refcodec.Tree, depth int) {
+	if tr == nil || tr.Kind != "obj" || depth > 3 {
+		return
+	}
+	for _, kv := range tr.Obj {
+		nullify(kv.V, depth+1)
+	}
+	tr.Obj = append([]refcodec.KV{{K: "aNull", V: refcodec.Null()}}, tr.Obj...)
+}
+
 func TestC11PartialUpdates(t *testing.T) {
 	// (a replay of a C11 file re-runs the complete enumeration: it is seconds long and deterministic)
 	rec := stats.For("C11")
@@ -538,30 +549,37 @@ func TestC11PartialUpdates(t *testing.T) {
 					if !legal {
 						continue
 					}
-					want := refcodec.Obj(refcodec.KV{K: "patch", V: dyn.PatchTree(S, n, p)})
-					ref := refcodec.RenderJSON(want, refcodec.JSONOpts{})
-					dvp := reflect.New(dyn.PatchTypeOf(full))
-					var derr error
-					if pn, pvv, st := hx.Try(func() {
-						r, e := restlicodec.NewJsonReaderWithExcludedFields([]byte(ref), restlicodec.NewPathSpec(spec...), 1)
-						if e != nil {
-							derr = e
-							return
+					for _, withNulls := range []bool{false, true} {
+						want := refcodec.Obj(refcodec.KV{K: "patch", V: dyn.PatchTree(S, n, p)})
+						if withNulls {
+							// the same document with members whose value is null (readers treat them as absent) in front of
+							// the others, in the patch object and in every object below it that is not a $delete list
+							nullify(want.Get("patch"), 0)
 						}
-						derr = dvp.Interface().(restlicodec.Unmarshaler).UnmarshalRestLi(r)
-					}); pn {
-						tl.fail("patch-decode-excluded", c, "panic: %v\n%s", pvv, st)
-						continue
-					}
-					rec.Label("patch_decoded_with_exclusions", 1)
-					switch {
-					case touches && derr == nil:
-						tl.fail("patch-decode-excluded", c, "a partial update document of %s touching an excluded field was accepted (spec=%q): %s", full, spec, ref)
-					case !touches && derr != nil:
-						tl.fail("patch-decode-excluded", c, "a partial update document of %s touching no excluded field was rejected (spec=%q): %s: %v", full, spec, ref, derr)
-					case !touches:
-						if got := dyn.ExtractPatch(S, dvp.Elem(), n); got.Canon() != p.WithDefaults(S, n).Canon() {
-							tl.fail("patch-decode-excluded", c, "partial update did not round trip through a reader with exclusions (spec=%q):\n got =%s\n want=%s\n doc=%s", spec, got.Canon(), p.Canon(), ref)
+						ref := refcodec.RenderJSON(want, refcodec.JSONOpts{})
+						dvp := reflect.New(dyn.PatchTypeOf(full))
+						var derr error
+						if pn, pvv, st := hx.Try(func() {
+							r, e := restlicodec.NewJsonReaderWithExcludedFields([]byte(ref), restlicodec.NewPathSpec(spec...), 1)
+							if e != nil {
+								derr = e
+								return
+							}
+							derr = dvp.Interface().(restlicodec.Unmarshaler).UnmarshalRestLi(r)
+						}); pn {
+							tl.fail("patch-decode-excluded", c, "panic: %v\n%s", pvv, st)
+							continue
+						}
+						rec.Label("patch_decoded_with_exclusions", 1)
+						switch {
+						case touches && derr == nil:
+							tl.fail("patch-decode-excluded", c, "a partial update document of %s touching an excluded field was accepted (spec=%q): %s", full, spec, ref)
+						case !touches && derr != nil:
+							tl.fail("patch-decode-excluded", c, "a partial update document of %s touching no excluded field was rejected (spec=%q): %s: %v", full, spec, ref, derr)
+						case !touches:
+							if got := dyn.ExtractPatch(S, dvp.Elem(), n); got.Canon() != p.WithDefaults(S, n).Canon() {
+								tl.fail("patch-decode-excluded", c, "partial update did not round trip through a reader with exclusions (spec=%q):\n got =%s\n want=%s\n doc=%s", spec, got.Canon(), p.Canon(), ref)
+							}
 						}
 					}
 					continue
